@@ -7,7 +7,7 @@ from wcmatch import glob as G
 
 GFLAGS = {'G': G.GLOBSTAR, 'L': G.GLOBSTARLONG, 'D': G.DOTGLOB, 'E': G.EXTGLOB, 'F': G.FOLLOW, 'X': G.MATCHBASE,
           'Y': G.SCANDOTDIR, 'Z': G.NODOTDIR, 'I': G.IGNORECASE, 'O': G.NODIR, 'K': G.MARK, 'N': G.NEGATE, 'B': G.BRACE,
-          'S': G.SPLIT, 'Q': G.NOUNIQUE, 'C': G.CASE, 'A': G.NEGATEALL, 'P': G.REALPATH, 'M': G.MINUSNEGATE, 'U': G.FORCEUNIX}
+          'S': G.SPLIT, 'Q': G.NOUNIQUE, 'C': G.CASE, 'W': G.FORCEWIN, 'A': G.NEGATEALL, 'P': G.REALPATH, 'M': G.MINUSNEGATE, 'U': G.FORCEUNIX}
 
 
 def gflags(fs):
